@@ -40,6 +40,10 @@ TANH = uf('tanh', R, R)
 FMOD = uf('fmod', R, R, R)
 
 
+RNG_NEXT = z3.Function('rng_next', z3.IntSort(), z3.IntSort())
+RNG_SEED = z3.Function('rng_seed', z3.IntSort(), z3.IntSort())
+
+
 def real(v):
     if z3.is_expr(v) and z3.is_int(v):
         return z3.ToReal(v)
@@ -134,6 +138,29 @@ def call_method(ex, objtype, name, objn, arrow, args, n, decl):
         if name == 'flip':
             ex.write(v.path, z3.Not(ex.read(v.path)))
             return None
+    if re.search(r'(uniform_int_distribution|uniform_real_distribution|normal_distribution)<', t) and name == 'operator()':
+        # one draw: a function of the engine state (and the distribution parameters); the engine advances
+        dv = ex.ev(objn)
+        gp = ex.lv(args[0])
+        st = ex.read(gp)
+        kind = 'int' if 'uniform_int' in t else 'real'
+        fnm = 'draw_' + ('normal' if 'normal' in t else ('uniform_int' if kind == 'int' else 'uniform_real'))
+        params = [v for v in (dv.f.values() if isinstance(dv, SVal) else [])]
+        params = [real(p) if kind == 'real' else p for p in params]
+        sorts = [z3.IntSort()] + [p.sort() for p in params]
+        F = z3.Function(fnm, *(sorts + [z3.IntSort() if kind == 'int' else z3.RealSort()]))
+        val = F(st, *params)
+        if kind == 'int' and len(params) == 2:
+            ex.assume(z3.And(val >= params[0], val <= params[1]))   # closed range of uniform_int_distribution (a <= b)
+        ex.write(gp, RNG_NEXT(st))
+        ex.assumed.add('<random>: a draw is a function of the engine state and the distribution parameters; the engine '
+                       'state advances by RNG_NEXT; uniform_int_distribution(a,b) returns a value in [a,b]')
+        return val
+    if re.search(r'(mersenne_twister_engine|mt19937)', t) and name == 'seed':
+        gp = ex.lv(objn)
+        sd = ex.ev(args[0]) if args else z3.IntVal(5489)
+        ex.write(gp, RNG_SEED(sd))
+        return None
     if re.match(r'^(std::)?complex<', t):
         v = ex.ev(objn)
         if name == 'real':
@@ -324,7 +351,14 @@ def ctor_model(ex, t, sh, ctype):
         return sptr_ctor
     if sh[0] == 'ptr' and ('iterator' in tt):
         return iter_ctor
+    if re.search(r'(uniform_int_distribution|uniform_real_distribution|normal_distribution)<', tt):
+        return dist_ctor
     return None
+
+
+def dist_ctor(ex, t, sh, ctype, args, n):
+    vals = [ex.calls._val(ex, a) for a in args if a.get('kind') != 'CXXDefaultArgExpr']
+    return SVal('std::distribution', {'p%d' % i: v for i, v in enumerate(vals)})
 
 
 def sptr_ctor(ex, t, sh, ctype, args, n):
